@@ -952,7 +952,8 @@ func c08OracleValues(c c08Case) []string {
 		}
 	}
 
-	for _, raw := range []string{c.Raw, c.Raw2} {
+	// c08OwnPath: what heimdall looks up when an X-Forwarded-Uri does not parse (C08-F6)
+	for _, raw := range []string{c.Raw, c.Raw2, c08OwnPath} {
 		for _, p := range []string{raw, c08LookupPath(raw)} {
 			if !strings.HasPrefix(p, "/") {
 				continue
